@@ -71,6 +71,10 @@ impl PrivateKey {
     pub(crate) fn from_wif_impl(wif_string: &str) -> Result<PrivateKey, BSVErrors> {
         // 1. Decode from Base58
         let wif_bytes = bs58::decode(wif_string).into_vec()?;
+        // prefix (1) + key (32) [+ compression flag (1)] + checksum (4)
+        if wif_bytes.len() < 37 {
+            return Err(BSVErrors::FromWIF("WIF payload is too short".into()));
+        }
         let wif_without_checksum = wif_bytes[0..wif_bytes.len() - 4].to_vec();
 
         // 2. Check the Checksum
